@@ -171,6 +171,16 @@ def resolveIni (mean : Option α) (iniArg : Option (Option α)) : Option α :=
   | none => mean
   | some i => i
 
+/-- the `params` argument: "float or np.ndarray" — `np.atleast_1d(params)` turns a scalar into order 1 -/
+inductive ParamArg (α : Type) where
+  | scalar (x : Option α)
+  | array (xs : List (Option α))
+
+/-- `np.atleast_1d(params).astype(np.float64)` -/
+def paramsOf : ParamArg α → List (Option α)
+  | .scalar x => [x]
+  | .array xs => xs
+
 /-- `armodel_sim(params, innov, sim_mean=0., sim_ini=None)`: `sim_ini` defaults to `sim_mean` -/
 def pySim (nan : α → Bool) (params : List (Option α)) (innov : List (Option α))
     (meanArg : Option (Option α)) (iniArg : Option (Option α)) : Except Err (List α) :=
